@@ -239,8 +239,21 @@ LOOP_SPEC = {"openapi": "3.1.0", "info": {"title": "loop", "version": "1"}, "pat
                         "responses": {"201": {"description": "made", "content": {"application/json": {"schema": {"$ref": "#/components/schemas/Echo"}}}}}},
                "get": {"operationId": "find_items", "parameters": [{"name": "q", "in": "query", "required": True, "schema": {"type": "string"}}, {"name": "limit", "in": "query", "schema": {"type": "integer"}},
                                                                      {"name": "X-Tenant", "in": "header", "schema": {"type": "string"}}],
-                       "responses": {"200": {"description": "ok", "content": {"application/json": {"schema": {"$ref": "#/components/schemas/Echo"}}}}}}}},
-    "components": {"schemas": {"Reason": {"type": "object", "properties": {"reason": {"type": "string"}}},
+                       "responses": {"200": {"description": "ok", "content": {"application/json": {"schema": {"$ref": "#/components/schemas/Echo"}}}}}}},
+    # optional query parameters whose schemas carry a default (absent must arrive absent) and a discriminated
+    # body whose mapping names every member twice (each tag must be accepted in both directions)
+    "/pets": {"post": {"operationId": "adopt_pet", "parameters": [{"name": "page", "in": "query", "schema": {"type": "integer", "default": 20}},
+                                                                    {"name": "sort", "in": "query", "schema": {"type": "string", "enum": ["name", "price"], "default": "name"}},
+                                                                    {"name": "note", "in": "query", "schema": {"type": "string", "default": "none"}},
+                                                                    {"name": "X-Mode", "in": "header", "schema": {"type": "string", "default": "fast"}}],
+                       "requestBody": {"required": True, "content": {"application/json": {"schema": {"$ref": "#/components/schemas/Pet"}}}},
+                       "responses": {"200": {"description": "ok", "content": {"application/json": {"schema": {"$ref": "#/components/schemas/Pet"}}}}}}}},
+    "components": {"schemas": {"Pet": {"oneOf": [{"$ref": "#/components/schemas/Cat"}, {"$ref": "#/components/schemas/Dog"}],
+                                       "discriminator": {"propertyName": "petType", "mapping": {"cat": "#/components/schemas/Cat", "feline": "#/components/schemas/Cat",
+                                                                                                "dog": "#/components/schemas/Dog", "hound": "#/components/schemas/Dog"}}},
+                               "Cat": {"type": "object", "required": ["petType"], "properties": {"petType": {"type": "string", "enum": ["cat", "feline"]}, "lives": {"type": "integer"}}},
+                               "Dog": {"type": "object", "required": ["petType"], "properties": {"petType": {"type": "string", "enum": ["dog", "hound"]}, "bark": {"type": "string"}}},
+                               "Reason": {"type": "object", "properties": {"reason": {"type": "string"}}},
                                "Item": {"type": "object", "required": ["name"], "properties": {"name": {"type": "string"}, "qty": {"type": "integer"}}},
                                "Echo": {"type": "object", "properties": {"seen": {"type": "string"}}}}}}
 
@@ -255,6 +268,15 @@ impl S::ApiServer for Svc {
     }
     async fn create_item(&self, request: S::CreateItemRequest) -> anyhow::Result<S::CreateItemResponse> {
         Ok(S::CreateItemResponse::Created(S::Echo { seen: Some(format!("name={:?} qty={:?}", request.body.name, request.body.qty)) }))
+    }
+    async fn adopt_pet(&self, request: S::AdoptPetRequest) -> anyhow::Result<S::AdoptPetResponse> {
+        eprintln!("adopt\tpage={:?} sort={:?} note={:?} mode={:?} body={:?}", request.query.page, request.query.sort, request.query.note, request.header.x_mode, request.body);
+        // answer with the other alias of the same member
+        Ok(S::AdoptPetResponse::Ok(match request.body {
+            S::Pet::Cat(c) => S::Pet::Dog(S::Dog { pet_type: if c.pet_type == S::CatPetType::Feline { S::DogPetType::Hound } else { S::DogPetType::Dog },
+                                                  bark: Some(format!("page={:?} sort={:?} note={:?} mode={:?} lives={:?}", request.query.page, request.query.sort, request.query.note, request.header.x_mode, c.lives)) }),
+            S::Pet::Dog(d) => S::Pet::Cat(S::Cat { pet_type: if d.pet_type == S::DogPetType::Hound { S::CatPetType::Feline } else { S::CatPetType::Cat }, lives: Some(d.bark.map(|b| b.len() as i64).unwrap_or(-1)) }),
+        }))
     }
     async fn restart_job(&self, request: S::RestartJobRequest) -> anyhow::Result<S::RestartJobResponse> {
         if request.path.job_id == "busy" { return Ok(S::RestartJobResponse::Conflict); }
@@ -280,6 +302,15 @@ fn main() {
         println!("5\t{:?}", client.find_items(r).await.map_err(|e| format!("{:#}", e)));
         let mut r = C::FindItemsRequest::default(); r.query.q = "\u{fc}".to_string();
         println!("6\t{:?}", client.find_items(r).await.map_err(|e| format!("{:#}", e)));
+        for (k, pet, page, sort, note, mode) in [
+            ("7", C::Pet::Cat(C::Cat { pet_type: C::CatPetType::Cat, lives: Some(9) }), None, None, None, None),
+            ("8", C::Pet::Cat(C::Cat { pet_type: C::CatPetType::Feline, lives: None }), Some(3), Some(C::AdoptPetRequestQuerySort::Price), Some("x y".to_string()), Some("slow".to_string())),
+            ("9", C::Pet::Dog(C::Dog { pet_type: C::DogPetType::Hound, bark: Some("woof".to_string()) }), None, Some(C::AdoptPetRequestQuerySort::Name), None, None),
+            ("10", C::Pet::Dog(C::Dog { pet_type: C::DogPetType::Dog, bark: None }), Some(20), None, Some("none".to_string()), Some("fast".to_string())),
+        ] {
+            let mut r = C::AdoptPetRequest::default(); r.body = pet; r.query.page = page; r.query.sort = sort; r.query.note = note; r.header.x_mode = mode;
+            println!("{}\t{:?}", k, client.adopt_pet(r).await.map_err(|e| format!("{:#}", e)));
+        }
     });
 }
 '''
@@ -291,6 +322,10 @@ LOOP_EXPECT = {
     "4": 'Ok(Created(Echo { seen: Some("name=\\"n \u00fc\\" qty=Some(3)") }))',
     "5": 'Ok(Ok(Echo { seen: Some("q=\\"a b&c=d\\" limit=Some(5) tenant=Some(\\"t1\\")") }))',
     "6": 'Ok(Ok(Echo { seen: Some("q=\\"\u00fc\\" limit=None tenant=None") }))',
+    "7": 'Ok(Ok(Dog(Dog { bark: Some("page=None sort=None note=None mode=None lives=Some(9)"), pet_type: Dog })))',
+    "8": 'Ok(Ok(Dog(Dog { bark: Some("page=Some(3) sort=Some(Price) note=Some(\\"x y\\") mode=Some(\\"slow\\") lives=None"), pet_type: Hound })))',
+    "9": 'Ok(Ok(Cat(Cat { lives: Some(4), pet_type: Feline })))',
+    "10": 'Ok(Ok(Cat(Cat { lives: Some(-1), pet_type: Cat })))',
 }
 
 
